@@ -22,6 +22,10 @@ func CopyDir(src, dest string, exclude []string) error {
 	// filepath.Walk 回调收到的是规范化后的路径, 去除源目录前缀前需先规范化 src,
 	// 否则形如 "a//b" "./a/b" "a/./b" 的源路径无法匹配, 备份失败
 	src = filepath.Clean(src)
+	// 数据目录可能是符号链接: Walk 不会跟随根路径上的符号链接, 只会访问链接本身, 备份为空目录
+	if resolved, err := filepath.EvalSymlinks(src); err == nil {
+		src = resolved
+	}
 	// 目标目录不存在则创建
 	if _, err := os.Stat(dest); os.IsNotExist(err) {
 		if err := os.MkdirAll(dest, os.ModePerm); err != nil {
